@@ -54,6 +54,10 @@ pub struct MigCase {
     /// destination appears (the bytes stay the same): migrate() may then fail with SourceChanged
     #[serde(default)]
     pub touch_source: bool,
+    /// a helper thread creates a file at the (absent) destination path as soon as the temporary
+    /// destination appears: migrate() must leave that file alone and fail with DestinationExists
+    #[serde(default)]
+    pub plant_dest: bool,
 }
 
 pub fn item() -> BoxedStrategy<Item> {
@@ -116,8 +120,12 @@ fn case_strat(tier: Tier) -> BoxedStrategy<MigCase> {
         any::<bool>(),
         prop_oneof![12 => Just(DestKind::Absent), 1 => Just(DestKind::File), 1 => Just(DestKind::Symlink), 1 => Just(DestKind::Directory)],
         proptest::bool::weighted(0.15),
+        proptest::bool::weighted(0.2),
     )
-        .prop_map(|(source, allow_ambiguous, dest, touch_source)| MigCase { source, allow_ambiguous, dest, touch_source })
+        .prop_map(|(source, allow_ambiguous, dest, touch_source, plant)| {
+            let plant_dest = plant && !touch_source && matches!(dest, DestKind::Absent);
+            MigCase { source, allow_ambiguous, dest, touch_source, plant_dest }
+        })
         .boxed()
 }
 
@@ -266,6 +274,7 @@ struct Notes {
     outcome: String,
     records: usize,
     touched: bool,
+    planted: bool,
 }
 
 fn materialise(src: &Source) -> Option<(Vec<u8>, u32)> {
@@ -347,6 +356,25 @@ fn judge(case: &MigCase, notes: &mut Notes) -> Result<(), (String, String)> {
             false
         })
     });
+    const PLANTED: &[u8] = b"planted by somebody else while the migration was running";
+    let planter = (case.plant_dest && matches!(case.dest, DestKind::Absent)).then(|| {
+        let (dir, dst, stop) = (dir.clone(), dst.clone(), toucher_stop.clone());
+        std::thread::spawn(move || {
+            use std::io::Write;
+            let t0 = std::time::Instant::now();
+            while !stop.load(Ordering::Acquire) && t0.elapsed() < std::time::Duration::from_secs(20) {
+                let tmp_exists = std::fs::read_dir(&dir).map(|d| d.filter_map(|e| e.ok()).any(|e| e.file_name().to_string_lossy().contains("feox-migrate"))).unwrap_or(false);
+                if tmp_exists {
+                    return match std::fs::OpenOptions::new().write(true).create_new(true).open(&dst) {
+                        Ok(mut f) => f.write_all(PLANTED).is_ok(),
+                        Err(_) => false,
+                    };
+                }
+                std::thread::yield_now();
+            }
+            false
+        })
+    });
     let result = {
         let _g = env::watch("migrate");
         env::with_visible_cpus(2, || {
@@ -357,6 +385,26 @@ fn judge(case: &MigCase, notes: &mut Notes) -> Result<(), (String, String)> {
     toucher_stop.store(true, Ordering::Release);
     let touched = toucher.map(|t| t.join().unwrap_or(false)).unwrap_or(false);
     notes.touched = touched;
+    let planted = planter.map(|t| t.join().unwrap_or(false)).unwrap_or(false);
+    notes.planted = planted;
+    if planted {
+        // the planter's create_new succeeded, so the path did not exist at that moment and the
+        // no-overwrite publication can only have failed afterwards: the planted file stays
+        let now = std::fs::read(&dst).ok();
+        let leftovers: Vec<String> = std::fs::read_dir(&dir).map(|d| d.filter_map(|e| e.ok()).map(|e| e.file_name().to_string_lossy().into_owned()).filter(|n| n.contains("feox-migrate")).collect()).unwrap_or_default();
+        let verdict = if now.as_deref() != Some(PLANTED) {
+            Err(("foreign-destination-destroyed".to_string(), format!("a file created at the destination path by somebody else while migrate() was running was {} (migrate() returned {})", if now.is_none() { "removed" } else { "overwritten" }, match &result { Ok(_) => "Ok".to_string(), Err(e) => format!("{e:?}") })))
+        } else if result.is_ok() {
+            Err(("existing-destination-overwritten".to_string(), "migrate() reported success although the destination path was taken by somebody else before it could publish".to_string()))
+        } else if !leftovers.is_empty() {
+            Err(("temporary-left-behind".to_string(), format!("migrate() failed and left {leftovers:?} beside the destination")))
+        } else {
+            Ok(())
+        };
+        notes.outcome = "failed:DestinationPlanted".into();
+        let _ = std::fs::remove_dir_all(&dir);
+        return verdict;
+    }
     let cleanup = |dir: &std::path::Path| {
         let _ = std::fs::remove_dir_all(dir);
     };
@@ -508,6 +556,9 @@ pub fn run(tier: Tier, seed: u64, replay: Option<&str>) -> i32 {
             *o.entry(notes.outcome.clone()).or_insert(0) += 1;
             if notes.active_journal {
                 *o.entry("source.active_journal".into()).or_insert(0) += 1;
+            }
+            if notes.planted {
+                *o.entry("destination_planted_during_migration".into()).or_insert(0) += 1;
             }
             if notes.touched {
                 *o.entry("source.mtime_touched_during_migration".into()).or_insert(0) += 1;
